@@ -1,4 +1,5 @@
 import LyModel.Diff.UOBridgeKLDec
+import LyModel.Diff.UOBridgeMKDec
 /-!
 # C06 — user-ordered keyed LISTS inside the tree model: apply(A, diff(A, B)) = B   (Stage 2a)
 
@@ -105,5 +106,102 @@ example : pred exK 0 [101, 39] = bs "[k=\"e'\"]" := by decide +kernel
 
 example : flatKL exK (klForest 0 [[97], [98], [99], [100]]) (klForest 0 [[100], [97], [101, 39], [98]]) = some 0 := by
   decide +kernel
+
+
+/-! ## several keys -/
+section MultiKey
+open LyModel.Diff.UOB.MK
+
+/-- `s` is a user-ordered list of `S` with `nk ≥ 1` keys, the leaves `s+1 … s+nk` (its first children in the schema table), no
+`=` in their names (YANG identifiers) -/
+def IsUserOrdMultiKeyList (S : Schema) (s nk : Nat) : Prop :=
+  S.kind? s = some .list ∧ S.isUserOrd s = true ∧ S.nkeys s = nk ∧ 0 < nk ∧
+    ∀ i, i < nk → S.isKey (s + 1 + i) = true ∧ S.kind? (s + 1 + i) = some .leaf ∧ 61 ∉ bs (S.name (s + 1 + i))
+
+theorem IsUserOrdMultiKeyList.ctx {S : Schema} {s nk : Nat} (h : IsUserOrdMultiKeyList S s nk) : MKCtx S s nk := by
+  obtain ⟨h1, h2, h3, h4, h5⟩ := h
+  refine ⟨h1, h2, h3, h4, fun i hi => (h5 i hi).1, ?_, ?_, fun i hi => (h5 i hi).2.2⟩
+  · intro i hi
+    have h6 := (h5 i hi).2.1
+    unfold Schema.kind? at h6
+    unfold Schema.isUserOrd
+    cases hg : S.get? (s + 1 + i) with
+    | none => rfl
+    | some n =>
+      simp only [hg, Option.map_some, Option.some.injEq] at h6
+      simp [h6]
+  · unfold Schema.kind? at h1
+    unfold Schema.nkeys at h3
+    unfold Schema.isDupInst
+    cases hg : S.get? s with
+    | none => rfl
+    | some n =>
+      simp only [hg, Option.map_some, Option.some.injEq] at h1 h3
+      have : n.nkeys ≠ 0 := by omega
+      simp [h1, this]
+
+/-- **The key-predicate round trip, any number of keys.**  For a list instance `n` whose key values contain not both quote
+characters and whose key names contain no `=`: `lyd_create_list2` (`parsePreds`) on what `lyd_path_list_predicate`
+(`keyPredicate`) printed gives the key values back. -/
+theorem keyPredicate_roundtrip (S : Schema) (n : DNode) (hk : ∀ k ∈ keysOf S n.kids, KeyOk S k) :
+    parsePreds ((keyPredicate S n).length + 1) (keyPredicate S n) = some (keyVals S n) :=
+  parsePreds_keyPredicate S n hk
+
+/-- **apply_diff_userord_flat_kl_multikey.**  For one user-ordered list with ANY number `nk ≥ 1` of keys at the top level,
+key-only instances identified by their `nk` key values (`KeyN nk`; `MK.klForest s keys`), all duplicate-free lists of
+identities `va`, `vb` (the key values of `vb` without both quote characters: `QOkN`), any combination of the repaired findings:
+`lyd_diff_apply_all(A, lyd_diff_siblings(A, B, LYD_DIFF_DEFAULTS))` succeeds and yields `B` up to `LYD_NEW`.  The moves are
+encoded as diff.c does (`yang:key` = the concatenated key predicates of the instance placed before, parsed back in
+`lyd_diff_insert`); obtained from the generic core theorem by the same simulation as the single-key case. -/
+theorem apply_diff_userord_flat_kl_multikey (S : Schema) (fx : Fixes) (s nk : Nat) (hs : IsUserOrdMultiKeyList S s nk)
+    (va vb : List (KeyN nk)) (nda : va.Nodup) (ndb : vb.Nodup) (hq : ∀ z ∈ vb, QOkN z) :
+    ∃ B', apply S (MK.klForest s va) (diffFromPtr S true (MK.klForest s va) (MK.klForest s vb) fx) fx = .ok B' ∧
+      normL S B' = normL S (MK.klForest s vb) :=
+  apply_diff_mk hs.ctx fx va vb nda ndb hq
+
+/-- **The same, from the decidable hypothesis the check evaluates per generated case** (`flatMK`, driver op `uohyp`): for ALL
+trees `A`, `B` that consist of plain key-only instances of one user-ordered list with `nk ≥ 1` keys, identities duplicate-free,
+the key values in `B` quotable. -/
+theorem apply_diff_userord_flat_kl_multikey_dec (S : Schema) (fx : Fixes) (A B : List DNode) (s nk : Nat)
+    (h : flatMK S A B = some (s, nk)) :
+    ∃ B', apply S A (diffFromPtr S true A B fx) fx = .ok B' ∧ normL S B' = normL S B := by
+  obtain ⟨hs, va, vb, hA, hB, nda, ndb, hq⟩ := flatMK_spec h
+  rw [hA, hB]
+  exact apply_diff_userord_flat_kl_multikey S fx s nk hs va vb nda ndb hq
+
+/-- `list ul { key "k1 k2"; ordered-by user; leaf k1; leaf k2 }` -/
+def exK2 : Schema :=
+  { modName := "uo4", nodes := [{ depth := 0, kind := .list, name := "ul", nkeys := 2, userord := true },
+                                { depth := 1, kind := .leaf, name := "k1", iskey := true },
+                                { depth := 1, kind := .leaf, name := "k2", iskey := true }] }
+
+theorem exK2_ok : IsUserOrdMultiKeyList exK2 0 2 := by
+  refine ⟨by decide, by decide, by decide, by decide, ?_⟩
+  intro i hi
+  have : i = 0 ∨ i = 1 := by omega
+  rcases this with rfl | rfl
+  · exact ⟨by decide, by decide, by decide +kernel⟩
+  · exact ⟨by decide, by decide, by decide +kernel⟩
+
+def k2 (a b : Bytes) : KeyN 2 := ⟨[a, b], rfl⟩
+
+-- `[(a,x) (a,y) (b,x)] → [(b,x) (a,x) (c',x)]`: delete (a,y), move (b,x) to the front, create (c',x) behind (a,x)
+example : ∃ B', apply exK2 (MK.klForest 0 [k2 [97] [120], k2 [97] [121], k2 [98] [120]])
+      (diffFromPtr exK2 true (MK.klForest 0 [k2 [97] [120], k2 [97] [121], k2 [98] [120]])
+        (MK.klForest 0 [k2 [98] [120], k2 [97] [120], k2 [99, 39] [120]])) = .ok B' ∧
+    normL exK2 B' = normL exK2 (MK.klForest 0 [k2 [98] [120], k2 [97] [120], k2 [99, 39] [120]]) :=
+  apply_diff_userord_flat_kl_multikey exK2 {} 0 2 exK2_ok _ _ (by decide) (by decide)
+    (by intro z hz; unfold QOkN KL.QOk; revert z; decide)
+
+example : (diff exK2 true (MK.klForest 0 [k2 [97] [120], k2 [97] [121], k2 [98] [120]])
+      (MK.klForest 0 [k2 [98] [120], k2 [97] [120], k2 [99, 39] [120]])).map
+      (fun n => (MK.keyOf n, (n.metas.map (·.2)).head?)) =
+    [([[97], [121]], some Op.delete.bytes), ([[98], [120]], some Op.replace.bytes), ([[99, 39], [120]], some Op.create.bytes)] := by
+  decide +kernel
+
+example : flatMK exK2 (MK.klForest 0 [k2 [97] [120], k2 [97] [121], k2 [98] [120]])
+    (MK.klForest 0 [k2 [98] [120], k2 [97] [120], k2 [99, 39] [120]]) = some (0, 2) := by decide +kernel
+
+end MultiKey
 
 end LyModel.Props.C06UO
